@@ -196,6 +196,7 @@ impl Scheduler {
     fn schedule_job_desync(&self, queue: &Arc<JobQueue>, job: Box<dyn ScheduledJob>) {
         enum ScheduleState {
             Idle,
+            Pending,
             Running,
             Panicked
         }
@@ -215,6 +216,9 @@ impl Scheduler {
 
                 QueueState::Panicked => ScheduleState::Panicked,
 
+                // Already in the schedule, waiting for a thread to pick it up
+                QueueState::Pending => ScheduleState::Pending,
+
                 _=> {
                     // If the queue is in any other state, then we leave it alone
                     ScheduleState::Running
@@ -231,6 +235,12 @@ impl Scheduler {
                 // Wake up a thread to run it if we can
                 self.schedule_thread();
             },
+
+            ScheduleState::Pending => {
+                // The thread that was going to pick this queue up may have been lost since it was scheduled (a job on another queue
+                // panicked, say), so make sure there is a thread looking at the schedule: this replaces any thread that has died
+                self.schedule_thread();
+            }
 
             ScheduleState::Running => { }
 
